@@ -441,6 +441,7 @@ import mir_jobs_state   # noqa: E402,F401  (registers the map-backed state jobs)
 import mir_jobs_fee     # noqa: E402,F401  (registers the fee reserve jobs)
 import mir_jobs_mem     # noqa: E402,F401  (registers the wasm memory access jobs)
 import mir_jobs_assert  # noqa: E402,F401  (registers the manifest resource constraint jobs)
+import mir_jobs_txval   # noqa: E402,F401  (registers the transaction header validation jobs)
 
 
 def _index():
